@@ -36,7 +36,7 @@ man = {
                  "kind_free_text": "Hypothesis-generated cases and histories, complete enumeration of small finite spaces, explicit reference-model / differential / invariant oracles, sharded over 16 processes; every failure is shrunk and written as a JSON replay that runs without Hypothesis"}],
     "checks": checks,
     "not_applicable": na,
-    "notes": "All random choices derive from VERIF_SEED (default 1). Exit 2 = harness error / inconclusive, never a violation. known_findings.json lists genuine defects recorded or fixed; see DESIGN.md.",
+    "notes": "All random choices derive from VERIF_SEED (default 1). Exit 2 = harness error / inconclusive, never a violation. known_findings.json lists the genuine defects (all repaired by fix: commits in /repo, status 'fixed', kept replays re-run as regression cases); no entry has status 'known', so no check prints KNOWN-FINDING. replays/quiet/ holds cases on which an earlier oracle raised a false alarm (must stay quiet). seeded/ holds 88 confirmed seeded changes by independent sub-agents with what catches them (DESIGN.md section 9). The registered commands always import /repo's working tree; only tools/try_mutant.py sets CFDPPY_VERIF_SCRATCH_REPO to point a run at a scratch worktree with a seeded change (its evidence then goes to /tmp, not to /verif/evidence).",
 }
 json.dump(man, open(os.path.join(os.path.dirname(__file__), "..", "MANIFEST.json"), "w"), indent=1)
 try:
